@@ -45,10 +45,16 @@ THOROUGH_BLOCKS = 15
 UNIVERSE_BLOCKS = 30
 
 
+# further cases per block whose start model is one of the repository's own test models that the start-model pool does not
+# hold (mox2: first-order absorption from NONMEM code with a CMT column in use, mox1); indices QUICK_N .. QUICK_N+EXTRA_N-1
+EXTRA_N = 80
+BLOCK_N = QUICK_N + EXTRA_N
+
+
 def n_cases(tier):
     # thorough = the quick cases of 15 seeds (the given seed and the blocks 0..14 other than it): the same generator at
     # the same depth per case, fifteen times the breadth
-    return QUICK_N if tier == "quick" else QUICK_N * THOROUGH_BLOCKS
+    return BLOCK_N if tier == "quick" else BLOCK_N * THOROUGH_BLOCKS
 
 
 def setup(tier):
@@ -58,6 +64,7 @@ def setup(tier):
     from vp import histories
 
     histories.start_models()
+    histories.extra_models()
 
 
 def judge_step(model, c, rng, K, wd, step_no, do_write):
@@ -392,7 +399,9 @@ def symptom(what):
 
 
 def start_class(sname):
-    return "gen" if sname.startswith("gen:") else "corpus"  # generated control stream / packaged pheno variant
+    if sname.startswith("gen:"):
+        return "gen"  # generated control stream
+    return sname if sname.startswith("mox") else "corpus"  # repository test model / packaged pheno variant
 
 
 def reduce_history(A, start_model, hist, seeds, jseed, K, wd, want, c):
@@ -462,14 +471,21 @@ def run_case(rng, idx, tier):
         base %= UNIVERSE_BLOCKS
     if tier != "quick":
         blocks = [base] + [b for b in range(THOROUGH_BLOCKS) if b != base][: THOROUGH_BLOCKS - 1]
-        sub, idx0 = blocks[idx // QUICK_N], idx % QUICK_N
+        sub, idx0 = blocks[idx // BLOCK_N], idx % BLOCK_N
         rng = random.Random(f"{PROP}:{sub}:{idx0}")  # exactly the generator of quick case idx0 under seed `sub`
     else:
+        idx0 = idx
         rng = random.Random(f"{PROP}:{base}:{idx}")  # = farm.case_rng for seeds inside the universe
     wd = Path(os.environ["VERIF_SCRATCH"]) / f"c{idx}"
     A = histories.alphabet()
     try:
-        if rng.random() < 0.6:
+        if idx0 >= QUICK_N:
+            extra = histories.extra_models()
+            sname = rng.choice(sorted(extra))
+            model = extra[sname]
+            model = model.replace(dataset=model.dataset.copy())
+            c.hit("extra_start_model")
+        elif rng.random() < 0.6:
             starts = histories.start_models()
             sname = rng.choice(sorted(starts))
             model = starts[sname]
